@@ -7,6 +7,7 @@ import (
 	"sort"
 	"strconv"
 	"strings"
+	"unicode/utf8"
 
 	"golang.org/x/tools/go/ssa"
 
@@ -312,6 +313,21 @@ func registerIntrinsics(e *Engine) {
 	}
 	in["strings.Index"] = func(fr *frame, a []value) value {
 		return indexOf(fr.i.ps, a[0], mustStr(a[1], "Index substr"))
+	}
+	// utf8.ValidString / utf8.Valid: one formula over the bytes (no fork per byte)
+	in["unicode/utf8.ValidString"] = func(fr *frame, a []value) value {
+		if s, ok := a[0].(string); ok {
+			return utf8.ValidString(s)
+		}
+		return mkScalar(fr.i.ps, utf8ValidTerm(strTerms(a[0])), types.Bool)
+	}
+	in["unicode/utf8.Valid"] = func(fr *frame, a []value) value {
+		bs, _ := a[0].([]value)
+		ts := make([]*smt.Term, len(bs))
+		for k, b := range bs {
+			ts[k] = termOf(b)
+		}
+		return mkScalar(fr.i.ps, utf8ValidTerm(ts), types.Bool)
 	}
 	in["strings.HasPrefix"] = func(fr *frame, a []value) value {
 		p := mustStr(a[1], "HasPrefix prefix")
@@ -1036,7 +1052,6 @@ func (i *interpreter) formatSymbolic(fr *frame, f sstr, args []value) value {
 	return concatStr(ps, parts)
 }
 
-
 // encodeRuneSym: the UTF-8 encoding of a symbolic rune as utf8.AppendRune produces it, one fork per
 // length class; surrogates and values outside Unicode become U+FFFD.
 func encodeRuneSym(ps *pathState, r *smt.Term) []*smt.Term {
@@ -1060,4 +1075,39 @@ func encodeRuneSym(ps *pathState, r *smt.Term) []*smt.Term {
 		return []*smt.Term{part(18, 0x07, 0xF0), part(12, 0x3F, 0x80), part(6, 0x3F, 0x80), part(0, 0x3F, 0x80)}
 	}
 	return replacement
+}
+
+// utf8ValidTerm: "these bytes are well-formed UTF-8" (Unicode table 3-7) as one term.
+func utf8ValidTerm(b []*smt.Term) *smt.Term {
+	n := len(b)
+	in := func(t *smt.Term, lo, hi uint64) *smt.Term {
+		return smt.And(smt.BvCmp(smt.OpBvUle, smt.BV(lo, 8), t), smt.BvCmp(smt.OpBvUle, t, smt.BV(hi, 8)))
+	}
+	valid := make([]*smt.Term, n+5)
+	for k := n; k < n+5; k++ {
+		valid[k] = smt.False
+	}
+	valid[n] = smt.True
+	for i := n - 1; i >= 0; i-- {
+		alt := []*smt.Term{smt.And(smt.BvCmp(smt.OpBvUlt, b[i], smt.BV(0x80, 8)), valid[i+1])}
+		if i+1 < n {
+			alt = append(alt, smt.And(in(b[i], 0xC2, 0xDF), in(b[i+1], 0x80, 0xBF), valid[i+2]))
+		}
+		if i+2 < n {
+			second := smt.Or(
+				smt.And(smt.Eq(b[i], smt.BV(0xE0, 8)), in(b[i+1], 0xA0, 0xBF)),
+				smt.And(smt.Or(in(b[i], 0xE1, 0xEC), in(b[i], 0xEE, 0xEF)), in(b[i+1], 0x80, 0xBF)),
+				smt.And(smt.Eq(b[i], smt.BV(0xED, 8)), in(b[i+1], 0x80, 0x9F)))
+			alt = append(alt, smt.And(second, in(b[i+2], 0x80, 0xBF), valid[i+3]))
+		}
+		if i+3 < n {
+			second := smt.Or(
+				smt.And(smt.Eq(b[i], smt.BV(0xF0, 8)), in(b[i+1], 0x90, 0xBF)),
+				smt.And(in(b[i], 0xF1, 0xF3), in(b[i+1], 0x80, 0xBF)),
+				smt.And(smt.Eq(b[i], smt.BV(0xF4, 8)), in(b[i+1], 0x80, 0x8F)))
+			alt = append(alt, smt.And(second, in(b[i+2], 0x80, 0xBF), in(b[i+3], 0x80, 0xBF), valid[i+4]))
+		}
+		valid[i] = smt.Or(alt...)
+	}
+	return valid[0]
 }
